@@ -155,7 +155,7 @@ theorem optConcat_map_perm {α β} (l : List α) (f : α → Option (List β)) (
 
 /-! ### unique keys: the `#` child -/
 
-theorem kidGet_flatMap_unique (kids : List (Level × SNode)) (k : Level) (g : SNode → List (Nat × Nat))
+theorem kidGet_flatMap_unique {α β} (kids : List (Level × α)) (k : Level) (g : α → List β)
     (hu : (kids.map (·.1)).Nodup) :
     kids.flatMap (fun p => if p.1 == k then g p.2 else []) =
       match kidGet kids k with
@@ -195,7 +195,7 @@ theorem smatch_char_aux (ns : List Level) (q : Nat) :
     rw [abs_mk, sel_append, sel_subs_nil, sel_flatMap]
     simp only [sel_absKid_nil]
     rw [kidGet_flatMap_unique kids MWC (fun n => matchQos q n.subs) hwf.2.1]
-    exact List.Perm.refl _
+    cases kidGet kids MWC <;> exact List.Perm.refl _
   | cons l ls ih =>
     intro n hwf
     obtain ⟨subs, kids⟩ := n
